@@ -236,7 +236,7 @@ func (P *Program) Instances(rel, typ, name string) []*ssa.Function {
 	var out []*ssa.Function
 	path := modPath + "/" + rel
 	for fn := range P.AllFuncs {
-		if fn.Name() != name || fnPkgPath(fn) != path {
+		if baseName(fn) != name || fnPkgPath(fn) != path {
 			continue
 		}
 		if fn.Synthetic != "" && !strings.Contains(fn.Synthetic, "instance") {
@@ -413,4 +413,37 @@ func isInteger(t types.Type) bool {
 func isUnsafePointer(t types.Type) bool {
 	b, ok := t.Underlying().(*types.Basic)
 	return ok && b.Kind() == types.UnsafePointer
+}
+
+// baseName is the function's name without type arguments ("Get[int]" → "Get").
+func baseName(fn *ssa.Function) string {
+	n := fn.Name()
+	if i := strings.IndexByte(n, '['); i >= 0 {
+		n = n[:i]
+	}
+	return n
+}
+
+// genericMethods returns the generic (uninstantiated) bodies of all methods
+// declared on the named type typ of package rel.
+func (P *Program) genericMethods(rel, typ string) []*ssa.Function {
+	tp := P.tpkg(rel)
+	if tp == nil {
+		return nil
+	}
+	obj := tp.Types.Scope().Lookup(typ)
+	if obj == nil {
+		return nil
+	}
+	named, ok := obj.Type().(*types.Named)
+	if !ok {
+		return nil
+	}
+	var out []*ssa.Function
+	for i := 0; i < named.NumMethods(); i++ {
+		if f := P.SSA.FuncValue(named.Method(i)); f != nil && f.Blocks != nil {
+			out = append(out, f)
+		}
+	}
+	return out
 }
